@@ -96,6 +96,8 @@ pub struct ConnSpec {
 pub struct Plan {
     pub hseed: u64,
     pub workers: usize,
+    /// number of listeners the server is given (connection `idx` talks to listener `idx % listeners`)
+    pub listeners: usize,
     /// Some: Graceful{timeout}, None: Forced
     pub timeout_ms: Option<u64>,
     pub call_at_ms: u64,
@@ -109,7 +111,7 @@ impl Plan {
     }
     pub fn to_json(&self) -> Value {
         json!({
-            "hseed": self.hseed, "workers": self.workers, "mode": self.mode(), "timeout_ms": self.timeout_ms,
+            "hseed": self.hseed, "workers": self.workers, "listeners": self.listeners, "mode": self.mode(), "timeout_ms": self.timeout_ms,
             "call_at_ms": self.call_at_ms,
             "delays": self.delays.iter().map(|d| json!({"point": d.point, "who": d.who, "nth": d.nth, "block": d.block, "us": d.micros})).collect::<Vec<_>>(),
             "conns": self.conns.iter().map(|c| json!({
@@ -123,7 +125,7 @@ impl Plan {
         for c in &self.conns {
             *roles.entry(c.role).or_insert(0u64) += 1;
         }
-        json!({"hseed": self.hseed, "workers": self.workers, "mode": self.mode(), "timeout_ms": self.timeout_ms,
+        json!({"hseed": self.hseed, "workers": self.workers, "listeners": self.listeners, "mode": self.mode(), "timeout_ms": self.timeout_ms,
             "call_at_ms": self.call_at_ms, "roles": roles, "delays": self.delays.len()})
     }
 }
@@ -325,5 +327,7 @@ pub fn gen_plan(hseed: u64) -> Plan {
             }
         }
     }
-    Plan { hseed, workers, timeout_ms, call_at_ms: call, conns, delays }
+    // drawn from its own stream, so that the rest of the plan is the same as before this knob existed
+    let listeners = if Rng::new(mix(hseed, 0x11_57, 2)).chance(30) { 2 } else { 1 };
+    Plan { hseed, workers, listeners, timeout_ms, call_at_ms: call, conns, delays }
 }
